@@ -241,7 +241,10 @@ class Scenario:
                 out = None
                 for i, f in fns:
                     out = f()
-                    pending_ret.append((i["kind"], out))
+                    if i["kind"] in ("pause", "defer", "abort", "stop", "halt"):
+                        rec.ev("reqret", i["kind"], out)      # blocking calls: their effect is complete when they return
+                    else:
+                        pending_ret.append((i["kind"], out))   # effects land on the loop after the call has returned
                 return out
             return run_and_log
 
